@@ -152,15 +152,15 @@ theorem C14_sender_write_error_kinds {ω : Type} (wr : ω → Bytes → Bool × 
     return nil: it returns an error OR PANICS (`c.1 ≠ none` includes the model's
     `.panic` marker; see the file header for when the real `Close` panics, and
     the next theorem for the call that RETURNS the error) -/
-theorem C14_sender_run_fault_reported (cfg : Cfg) (hp : ∀ b, (cfg.pieces b).flatten = b) (sink : Stream.Sink)
+theorem C14_sender_run_fault_reported (cfg : Cfg) (hp : ∀ b, (cfg.pieces b).flatten = b) (sink : Stream.Sink) (part : List Nat)
     (headerBytes : Bytes) (ws : List Bytes) :
-    let i := PSt.init Wr.write cfg.pieces ({ sink := sink } : Wr) headerBytes
+    let i := PSt.init Wr.write cfg.pieces ({ sink := sink, part := part } : Wr) headerBytes
     let c := (PSt.writes Wr.write cfg i.2 ws).2.close Wr.write cfg
     c.2.codec.w.faults ≠ 0 → i.1 = false ∨ c.1 ≠ none := by
   intro i c hne
   by_cases hc : c.1 = none
   · left
-    have hi := faultSeen_init Wr.write Wr.faults wr_flt cfg.pieces ({ sink := sink } : Wr) headerBytes
+    have hi := faultSeen_init Wr.write Wr.faults wr_flt cfg.pieces ({ sink := sink, part := part } : Wr) headerBytes
     have hw := faultSeen_writes Wr.write Wr.faults wr_flt cfg 0 ws _ hi.1
     have hcl := close_flt Wr.write Wr.faults wr_flt cfg (PSt.writes Wr.write cfg i.2 ws).2
     have hsame := hcl.1 hc
@@ -173,13 +173,13 @@ theorem C14_sender_run_fault_reported (cfg : Cfg) (hp : ∀ b, (cfg.pieces b).fl
     panic marker involved): if any underlying write failed during the run, the
     constructor failed, or some `Write` returned the writer's error, or `Close`
     returned the writer's error -/
-theorem C14_sender_run_fault_returns_io_error (cfg : Cfg) (sink : Stream.Sink) (headerBytes : Bytes) (ws : List Bytes) :
-    let i := PSt.init Wr.write cfg.pieces ({ sink := sink } : Wr) headerBytes
+theorem C14_sender_run_fault_returns_io_error (cfg : Cfg) (sink : Stream.Sink) (part : List Nat) (headerBytes : Bytes) (ws : List Bytes) :
+    let i := PSt.init Wr.write cfg.pieces ({ sink := sink, part := part } : Wr) headerBytes
     let r := PSt.writes Wr.write cfg i.2 ws
     let c := r.2.close Wr.write cfg
     c.2.codec.w.faults ≠ 0 → i.1 = false ∨ (∃ x ∈ r.1, x.2 = some .ioError) ∨ c.1 = some .ioError := by
   intro i r c hne
-  exact run_fault_io Wr.write Wr.faults wr_flt cfg ({ sink := sink } : Wr) headerBytes ws hne
+  exact run_fault_io Wr.write Wr.faults wr_flt cfg ({ sink := sink, part := part } : Wr) headerBytes ws hne
 
 /-- …generic form (any fault-counting writer, see the header on `FltWriter`) -/
 theorem C14_sender_run_fault_returns_io_error_gen {ω : Type} (wr : ω → Bytes → Bool × ω) (flt : ω → Nat)
@@ -315,12 +315,12 @@ theorem C14_sender_close_error_kinds {ω : Type} (wr : ω → Bytes → Bool × 
 theorem C14_encrypt_success_means_written (P : Prims) (bs : Nat) (hb : 0 < bs) (pieces : Bytes → List Bytes)
     (hp : ∀ b, (pieces b).flatten = b) (v : Version) (sender : Option Bytes) (rs : List Encrypt.Recipient)
     (eph pk : Bytes) (hbytes : Bytes) (cfg : Cfg) (hs : encryptSetup P bs pieces v sender rs eph pk = .ok (hbytes, cfg))
-    (sink : Stream.Sink) (ws : List Bytes)
-    (hi : (PSt.init Wr.write cfg.pieces ({ sink := sink } : Wr) hbytes).1 = true)
-    (hws : ∀ x ∈ (PSt.writes Wr.write cfg (PSt.init Wr.write cfg.pieces ({ sink := sink } : Wr) hbytes).2 ws).1, x.2 = none)
-    (hc : ((PSt.writes Wr.write cfg (PSt.init Wr.write cfg.pieces ({ sink := sink } : Wr) hbytes).2 ws).2.close Wr.write cfg).1 = none) :
+    (sink : Stream.Sink) (part : List Nat) (ws : List Bytes)
+    (hi : (PSt.init Wr.write cfg.pieces ({ sink := sink, part := part } : Wr) hbytes).1 = true)
+    (hws : ∀ x ∈ (PSt.writes Wr.write cfg (PSt.init Wr.write cfg.pieces ({ sink := sink, part := part } : Wr) hbytes).2 ws).1, x.2 = none)
+    (hc : ((PSt.writes Wr.write cfg (PSt.init Wr.write cfg.pieces ({ sink := sink, part := part } : Wr) hbytes).2 ws).2.close Wr.write cfg).1 = none) :
     Encrypt.sealWith P bs v sender rs eph pk ws.flatten =
-      .ok ((PSt.writes Wr.write cfg (PSt.init Wr.write cfg.pieces ({ sink := sink } : Wr) hbytes).2 ws).2.close Wr.write cfg).2.codec.w.bytes := by
+      .ok ((PSt.writes Wr.write cfg (PSt.init Wr.write cfg.pieces ({ sink := sink, part := part } : Wr) hbytes).2 ws).2.close Wr.write cfg).2.codec.w.bytes := by
   have hcfg := encryptSetup_cfg P bs pieces v sender rs eph pk hbytes cfg hs
   obtain ⟨M, hM, ho, _⟩ := C14_sender_success_means_written Wr.write Wr.bytes wr_obs cfg
     (by rw [hcfg.2.1]; exact hp) (by rw [hcfg.1]; exact hb) hcfg.2.2.2 v hcfg.2.2.1 _ hbytes ws hi hws hc
@@ -332,22 +332,22 @@ theorem C14_encrypt_success_means_written (P : Prims) (bs : Nat) (hb : 0 < bs) (
 theorem C14_encrypt_failure_prefix (P : Prims) (bs : Nat) (hb : 0 < bs) (pieces : Bytes → List Bytes)
     (hp : ∀ b, (pieces b).flatten = b) (v : Version) (sender : Option Bytes) (rs : List Encrypt.Recipient)
     (eph pk : Bytes) (hbytes : Bytes) (cfg : Cfg) (hs : encryptSetup P bs pieces v sender rs eph pk = .ok (hbytes, cfg))
-    (sink : Stream.Sink) (ws : List Bytes) (M : Bytes) (hM : Encrypt.sealWith P bs v sender rs eph pk ws.flatten = .ok M) :
-    ((PSt.writes Wr.write cfg (PSt.init Wr.write cfg.pieces ({ sink := sink } : Wr) hbytes).2 ws).2.close Wr.write cfg).2.codec.w.bytes <+: M := by
+    (sink : Stream.Sink) (part : List Nat) (ws : List Bytes) (M : Bytes) (hM : Encrypt.sealWith P bs v sender rs eph pk ws.flatten = .ok M) :
+    ((PSt.writes Wr.write cfg (PSt.init Wr.write cfg.pieces ({ sink := sink, part := part } : Wr) hbytes).2 ws).2.close Wr.write cfg).2.codec.w.bytes <+: M := by
   have hcfg := encryptSetup_cfg P bs pieces v sender rs eph pk hbytes cfg hs
   obtain ⟨hb', cfg', hs', hone⟩ := (sealWith_iff_oneShot P bs pieces v sender rs eph pk ws.flatten M).1 hM
   rw [hs] at hs'
   injection hs' with hs'
   obtain ⟨rfl, rfl⟩ := Prod.mk.inj hs'
   have := C14_sender_failure_prefix Wr.write Wr.bytes wr_obs cfg (by rw [hcfg.2.1]; exact hp) (by rw [hcfg.1]; exact hb)
-    hcfg.2.2.2 v hcfg.2.2.1 ({ sink := sink } : Wr) hbytes ws M hone
+    hcfg.2.2.2 v hcfg.2.2.1 ({ sink := sink, part := part } : Wr) hbytes ws M hone
   simpa [Wr.bytes] using this
 
 /-- `NewSignStream` likewise: success ⇒ exactly `Sign.attachedWith`; always a prefix of it -/
 theorem C14_sign_written_or_prefix (P : Prims) (bs : Nat) (hb : 0 < bs) (pieces : Bytes → List Bytes)
     (hp : ∀ b, (pieces b).flatten = b) (v : Version) (signer nonce : Bytes) (hbytes : Bytes) (cfg : Cfg)
-    (hs : signSetup P bs pieces v signer nonce = .ok (hbytes, cfg)) (sink : Stream.Sink) (ws : List Bytes) :
-    let i := PSt.init Wr.write cfg.pieces ({ sink := sink } : Wr) hbytes
+    (hs : signSetup P bs pieces v signer nonce = .ok (hbytes, cfg)) (sink : Stream.Sink) (part : List Nat) (ws : List Bytes) :
+    let i := PSt.init Wr.write cfg.pieces ({ sink := sink, part := part } : Wr) hbytes
     let r := PSt.writes Wr.write cfg i.2 ws
     let c := r.2.close Wr.write cfg
     (i.1 = true → (∀ x ∈ r.1, x.2 = none) → c.1 = none →
@@ -367,15 +367,15 @@ theorem C14_sign_written_or_prefix (P : Prims) (bs : Nat) (hb : 0 < bs) (pieces 
     injection hs' with hs'
     obtain ⟨rfl, rfl⟩ := Prod.mk.inj hs'
     have := C14_sender_failure_prefix Wr.write Wr.bytes wr_obs cfg (by rw [hcfg.2.1]; exact hp) (by rw [hcfg.1]; exact hb)
-      hcfg.2.2.2 v hcfg.2.2.1 ({ sink := sink } : Wr) hbytes ws M hone
+      hcfg.2.2.2 v hcfg.2.2.1 ({ sink := sink, part := part } : Wr) hbytes ws M hone
     simpa [Wr.bytes] using this
 
 /-- `NewSigncryptSealStream` likewise -/
 theorem C14_signcrypt_written_or_prefix (P : Prims) (bs : Nat) (hb : 0 < bs) (pieces : Bytes → List Bytes)
     (hp : ∀ b, (pieces b).flatten = b) (sender : Option Bytes) (rs : List Signcrypt.Recipient) (eph pk : Bytes)
     (hbytes : Bytes) (cfg : Cfg) (hs : signcryptSetup P bs pieces sender rs eph pk = .ok (hbytes, cfg))
-    (sink : Stream.Sink) (ws : List Bytes) :
-    let i := PSt.init Wr.write cfg.pieces ({ sink := sink } : Wr) hbytes
+    (sink : Stream.Sink) (part : List Nat) (ws : List Bytes) :
+    let i := PSt.init Wr.write cfg.pieces ({ sink := sink, part := part } : Wr) hbytes
     let r := PSt.writes Wr.write cfg i.2 ws
     let c := r.2.close Wr.write cfg
     (i.1 = true → (∀ x ∈ r.1, x.2 = none) → c.1 = none →
@@ -395,7 +395,7 @@ theorem C14_signcrypt_written_or_prefix (P : Prims) (bs : Nat) (hb : 0 < bs) (pi
     injection hs' with hs'
     obtain ⟨rfl, rfl⟩ := Prod.mk.inj hs'
     have := C14_sender_failure_prefix Wr.write Wr.bytes wr_obs cfg (by rw [hcfg.2.1]; exact hp) (by rw [hcfg.1]; exact hb)
-      hcfg.2.2.2 v2 hcfg.2.2.1 ({ sink := sink } : Wr) hbytes ws M hone
+      hcfg.2.2.2 v2 hcfg.2.2.1 ({ sink := sink, part := part } : Wr) hbytes ws M hone
     simpa [Wr.bytes] using this
 
 /-- `NewSignDetachedStream`: `Write` only hashes; what reaches the writer is a
@@ -404,8 +404,8 @@ theorem C14_signcrypt_written_or_prefix (P : Prims) (bs : Nat) (hb : 0 < bs) (pi
     underlying write and always fails after one -/
 theorem C14_detached_written_or_prefix (P : Prims) (pieces : Bytes → List Bytes) (hp : ∀ b, (pieces b).flatten = b)
     (v : Version) (signer nonce : Bytes) (hbytes : Bytes) (sp : Bytes → Bytes)
-    (hs : detachedSetup P v signer nonce = .ok (hbytes, sp)) (sink : Stream.Sink) (ws : List Bytes) :
-    let i := DSt.init Wr.write pieces ({ sink := sink } : Wr) hbytes
+    (hs : detachedSetup P v signer nonce = .ok (hbytes, sp)) (sink : Stream.Sink) (part : List Nat) (ws : List Bytes) :
+    let i := DSt.init Wr.write pieces ({ sink := sink, part := part } : Wr) hbytes
     let r := DSt.writes i.2 ws
     let c := r.2.close Wr.write pieces sp
     r.1 = ws.map (fun p => (p.length, none)) ∧
@@ -414,7 +414,7 @@ theorem C14_detached_written_or_prefix (P : Prims) (pieces : Bytes → List Byte
     (c.1 = none → c.2.codec.w.faults = r.2.codec.w.faults) ∧
     (r.2.codec.failed = true → c.1 = some .ioError) := by
   intro i r c
-  obtain ⟨h1, h2⟩ := det_run Wr.write Wr.bytes wr_obs pieces hp sp ({ sink := sink } : Wr) hbytes ws
+  obtain ⟨h1, h2⟩ := det_run Wr.write Wr.bytes wr_obs pieces hp sp ({ sink := sink, part := part } : Wr) hbytes ws
   have hfl := det_close_flt Wr.write Wr.faults wr_flt pieces sp r.2
   refine ⟨(det_writes ws _).2, ⟨headerPacket hbytes ++ sp ws.flatten, ?_, ?_, ?_⟩, hfl.1, fun h => (hfl.2.1 h).1⟩
   · exact (detachedWith_iff P v signer nonce ws.flatten _).2 ⟨hbytes, sp, hs, rfl⟩
@@ -429,8 +429,8 @@ theorem C14_detached_written_or_prefix (P : Prims) (pieces : Bytes → List Byte
 theorem C14_encrypt_close_ok_means_written (P : Prims) (bs : Nat) (hb : 0 < bs) (pieces : Bytes → List Bytes)
     (hp : ∀ b, (pieces b).flatten = b) (v : Version) (sender : Option Bytes) (rs : List Encrypt.Recipient)
     (eph pk : Bytes) (hbytes : Bytes) (cfg : Cfg) (hs : encryptSetup P bs pieces v sender rs eph pk = .ok (hbytes, cfg))
-    (sink : Stream.Sink) (ws : List Bytes) :
-    let i := PSt.init Wr.write cfg.pieces ({ sink := sink } : Wr) hbytes
+    (sink : Stream.Sink) (part : List Nat) (ws : List Bytes) :
+    let i := PSt.init Wr.write cfg.pieces ({ sink := sink, part := part } : Wr) hbytes
     let r := PSt.writes Wr.write cfg i.2 ws
     let c := r.2.close Wr.write cfg
     c.1 = none → i.1 = true ∧ r.1 = ws.map (fun p => (p.length, none)) ∧
@@ -447,8 +447,8 @@ theorem C14_encrypt_close_ok_means_written (P : Prims) (bs : Nat) (hb : 0 < bs) 
 
 theorem C14_sign_close_ok_means_written (P : Prims) (bs : Nat) (hb : 0 < bs) (pieces : Bytes → List Bytes)
     (hp : ∀ b, (pieces b).flatten = b) (v : Version) (signer nonce : Bytes) (hbytes : Bytes) (cfg : Cfg)
-    (hs : signSetup P bs pieces v signer nonce = .ok (hbytes, cfg)) (sink : Stream.Sink) (ws : List Bytes) :
-    let i := PSt.init Wr.write cfg.pieces ({ sink := sink } : Wr) hbytes
+    (hs : signSetup P bs pieces v signer nonce = .ok (hbytes, cfg)) (sink : Stream.Sink) (part : List Nat) (ws : List Bytes) :
+    let i := PSt.init Wr.write cfg.pieces ({ sink := sink, part := part } : Wr) hbytes
     let r := PSt.writes Wr.write cfg i.2 ws
     let c := r.2.close Wr.write cfg
     c.1 = none → i.1 = true ∧ r.1 = ws.map (fun p => (p.length, none)) ∧
@@ -466,8 +466,8 @@ theorem C14_sign_close_ok_means_written (P : Prims) (bs : Nat) (hb : 0 < bs) (pi
 theorem C14_signcrypt_close_ok_means_written (P : Prims) (bs : Nat) (hb : 0 < bs) (pieces : Bytes → List Bytes)
     (hp : ∀ b, (pieces b).flatten = b) (sender : Option Bytes) (rs : List Signcrypt.Recipient) (eph pk : Bytes)
     (hbytes : Bytes) (cfg : Cfg) (hs : signcryptSetup P bs pieces sender rs eph pk = .ok (hbytes, cfg))
-    (sink : Stream.Sink) (ws : List Bytes) :
-    let i := PSt.init Wr.write cfg.pieces ({ sink := sink } : Wr) hbytes
+    (sink : Stream.Sink) (part : List Nat) (ws : List Bytes) :
+    let i := PSt.init Wr.write cfg.pieces ({ sink := sink, part := part } : Wr) hbytes
     let r := PSt.writes Wr.write cfg i.2 ws
     let c := r.2.close Wr.write cfg
     c.1 = none → i.1 = true ∧ r.1 = ws.map (fun p => (p.length, none)) ∧
@@ -499,14 +499,14 @@ theorem C14_detached_ctor_reports {ω : Type} (wr : ω → Bytes → Bool × ω)
     `Sign.detachedWith` of everything written -/
 theorem C14_detached_run_fault_reported (P : Prims) (pieces : Bytes → List Bytes) (hp : ∀ b, (pieces b).flatten = b)
     (v : Version) (signer nonce : Bytes) (hbytes : Bytes) (sp : Bytes → Bytes)
-    (hs : detachedSetup P v signer nonce = .ok (hbytes, sp)) (sink : Stream.Sink) (ws : List Bytes) :
-    let i := DSt.init Wr.write pieces ({ sink := sink } : Wr) hbytes
+    (hs : detachedSetup P v signer nonce = .ok (hbytes, sp)) (sink : Stream.Sink) (part : List Nat) (ws : List Bytes) :
+    let i := DSt.init Wr.write pieces ({ sink := sink, part := part } : Wr) hbytes
     let c := (DSt.writes i.2 ws).2.close Wr.write pieces sp
     (c.2.codec.w.faults ≠ 0 → i.1 = false ∨ c.1 = some .ioError) ∧
     (c.1 = none → i.1 = true ∧ c.2.codec.w.faults = 0 ∧
       Sign.detachedWith P v signer nonce ws.flatten = .ok c.2.codec.w.bytes) := by
   intro i c
-  obtain ⟨h1, h2⟩ := det_run_fault Wr.write Wr.faults wr_flt pieces sp ({ sink := sink } : Wr) hbytes ws
+  obtain ⟨h1, h2⟩ := det_run_fault Wr.write Wr.faults wr_flt pieces sp ({ sink := sink, part := part } : Wr) hbytes ws
   refine ⟨h1, fun hc => ?_⟩
   have hi := h2 hc
   refine ⟨hi, ?_, ?_⟩
@@ -515,7 +515,7 @@ theorem C14_detached_run_fault_reported (P : Prims) (pieces : Bytes → List Byt
     rcases h1 hne with h | h
     · rw [hi] at h; cases h
     · rw [hc] at h; cases h
-  · have := (det_run Wr.write Wr.bytes wr_obs pieces hp sp ({ sink := sink } : Wr) hbytes ws).2 hi hc
+  · have := (det_run Wr.write Wr.bytes wr_obs pieces hp sp ({ sink := sink, part := part } : Wr) hbytes ws).2 hi hc
     show _ = Except.ok (Wr.bytes _)
     rw [this]
     exact (detachedWith_iff P v signer nonce ws.flatten _).2 ⟨hbytes, sp, hs, by simp [Wr.bytes]⟩
@@ -583,9 +583,9 @@ theorem C14_armored_after_fault (cfg : Cfg) (st : PSt FArm) (p : Bytes) :
     constructor failed or `Close` does not return nil (returns an error or
     PANICS, as for the binary streams; the next theorem names the call that
     RETURNS the error) -/
-theorem C14_armored_run_fault_reported (cfg : Cfg) (typ : Int) (brand : Bytes) (sink : Stream.Sink)
+theorem C14_armored_run_fault_reported (cfg : Cfg) (typ : Int) (brand : Bytes) (sink : Stream.Sink) (part : List Nat)
     (headerBytes : Bytes) (ws : List Bytes) :
-    let a := FArm.init62 typ brand ({ sink := sink } : Wr)
+    let a := FArm.init62 typ brand ({ sink := sink, part := part } : Wr)
     let i := PSt.init FArm.write cfg.pieces a.2 headerBytes
     let c := armoredClose cfg (PSt.writes FArm.write cfg i.2 ws).2
     c.2.codec.w.w.faults ≠ 0 → a.1 = false ∨ c.1 ≠ none := by
@@ -596,7 +596,7 @@ theorem C14_armored_run_fault_reported (cfg : Cfg) (typ : Int) (brand : Bytes) (
     have hi := faultSeen_init FArm.write (fun a => a.w.faults) farm_flt cfg.pieces a.2 headerBytes
     have hw := faultSeen_writes FArm.write (fun a => a.w.faults) farm_flt cfg (a.2.w.faults) ws _ hi.1
     have ha0 : a.2.w.faults = (if a.1 then 0 else 1) := by
-      have := wr_write_faults ({ sink := sink } : Wr) (Armor.header typ brand ++ [Armor.period, Armor.space])
+      have := wr_write_faults ({ sink := sink, part := part } : Wr) (Armor.header typ brand ++ [Armor.period, Armor.space])
       simpa [a, FArm.init62, FArm.init] using this
     cases hA : a.1 with
     | false => rfl
@@ -612,9 +612,9 @@ theorem C14_armored_run_fault_reported (cfg : Cfg) (typ : Int) (brand : Bytes) (
 /-- **…and the fault is RETURNED by the call in which it happens**: the armor
     constructor failed, or the packet stream's constructor failed, or a `Write`
     returned the writer's error, or `closeForwarder.Close` returned it -/
-theorem C14_armored_run_fault_returns_io_error (cfg : Cfg) (typ : Int) (brand : Bytes) (sink : Stream.Sink)
+theorem C14_armored_run_fault_returns_io_error (cfg : Cfg) (typ : Int) (brand : Bytes) (sink : Stream.Sink) (part : List Nat)
     (headerBytes : Bytes) (ws : List Bytes) :
-    let a := FArm.init62 typ brand ({ sink := sink } : Wr)
+    let a := FArm.init62 typ brand ({ sink := sink, part := part } : Wr)
     let i := PSt.init FArm.write cfg.pieces a.2 headerBytes
     let r := PSt.writes FArm.write cfg i.2 ws
     let c := armoredClose cfg r.2
@@ -622,7 +622,7 @@ theorem C14_armored_run_fault_returns_io_error (cfg : Cfg) (typ : Int) (brand : 
       a.1 = false ∨ i.1 = false ∨ (∃ x ∈ r.1, x.2 = some .ioError) ∨ c.1 = some .ioError := by
   intro a i r c hne
   have ha0 : a.2.w.faults = (if a.1 then 0 else 1) := by
-    have := wr_write_faults ({ sink := sink } : Wr) (Armor.header typ brand ++ [Armor.period, Armor.space])
+    have := wr_write_faults ({ sink := sink, part := part } : Wr) (Armor.header typ brand ++ [Armor.period, Armor.space])
     simpa [a, FArm.init62, FArm.init] using this
   cases hA : a.1 with
   | false => exact Or.inl rfl
@@ -699,6 +699,26 @@ example :
 -- the panic run above: the Write returned the io error, then Close panicked
 example : (toyRun (toyCfg false true) [false, false, false, true] [[1, 2, 3, 4, 5, 6, 7]]).2.1 = [(0, some .ioError)] := by
   decide
+/-- one underlying write per PACKET (so that a failing write can take a part of it) -/
+def toyCfgW (v1shape hasErr : Bool) : Cfg := { toyCfg v1shape hasErr with pieces := fun b => [b] }
+
+def toyRunP (cfg : Cfg) (sink : Stream.Sink) (part : List Nat) (ws : List Bytes) :
+    Bool × List (Nat × Option Err) × Option Err × Bytes :=
+  let i := PSt.init Wr.write cfg.pieces ({ sink := sink, part := part } : Wr) [7]
+  let r := PSt.writes Wr.write cfg i.2 ws
+  let c := r.2.close Wr.write cfg
+  (i.1, r.1, c.1, c.2.codec.w.bytes)
+
+-- a FAILING write that ACCEPTED A PART of its slice (io.Writer: (n, err), 0 < n < len): the 2nd
+-- underlying write (packet 0 = 00 00 01 02) takes 3 bytes and fails: the Write reports it, the
+-- stream is dead, the writer holds header ‖ those 3 bytes — still a prefix of the fault-free output
+example : toyRunP (toyCfgW false true) [false, true] [3] [[1, 2, 3], [4, 5]] =
+    (true, [(0, some .ioError), (0, some .ioError)], some .ioError, [0xc4, 1, 7, 0, 0, 1]) := by decide
+example : toyRunP (toyCfgW false true) [] [] [[1, 2, 3], [4, 5]] =
+    (true, [(3, none), (2, none)], none, [0xc4, 1, 7, 0, 0, 1, 2, 1, 0, 3, 4, 2, 1, 5]) := by decide
+-- it took the WHOLE slice and failed all the same (n = len, err): reported, dead, prefix
+example : toyRunP (toyCfgW false true) [false, true] [1000] [[1, 2, 3], [4, 5]] =
+    (true, [(0, some .ioError), (0, some .ioError)], some .ioError, [0xc4, 1, 7, 0, 0, 1, 2]) := by decide
 -- go-codec's write pattern on a header-like value: bin8 = two 1-byte writes and the content
 example : codecPieces [0xc4, 3, 9, 9, 9, 0x93, 0xc3, 0xc4, 0] = [[0xc4], [3], [9, 9, 9], [0x93], [0xc3], [0xc4], [0]] := by
   decide
